@@ -47,7 +47,47 @@ fn newop(name: &str, p: (f64, u64, f64, u64), imax: u64) -> String {
 }
 
 /// set semantics + chunking + internal state, u16 and u32 registers
+/// the same sketcher constructed two ways: `SetSketcher::default()` and `SetSketcher::new(SetSketchParams::default(), ..)` (and
+/// `SetSketchParams::new` with the default values): same registers for the same items, as many registers as `get_m()` says,
+/// same cardinality statistics; compared with the model at the parameters the getters report
+pub fn corr_default(ctx: &mut Ctx) {
+    use probminhash::setsketcher::{SetSketchParams, SetSketcher};
+    for n in if ctx.quick() { vec![0usize, 5, 400] } else { vec![0usize, 1, 5, 400, 20_000] } {
+        let mut rng = ctx.rng.fork();
+        let items = gen_stream(&mut rng, n);
+        ctx.begin_case(&format!("ssk default() vs new(default params) n={}", n));
+        ctx.mark_nontrivial();
+        ctx.count("SetSketcher::default() vs new(SetSketchParams::default())");
+        let p = SetSketchParams::default();
+        let (b, m, a, q) = (p.get_b(), p.get_m(), p.get_a(), p.get_q());
+        let p2 = SetSketchParams::new(b, m, a, q);
+        let dump = |s: &SetSketcher<u16, u64, FnvHasher>| { let (lk, nbmin) = s.verif_state(); let cs = s.get_cardinal_stats();
+            (format!("{} | {} {} {}", join(&s.get_signature().iter().map(|x| *x as u64).collect::<Vec<_>>()), lk as u64, nbmin, s.get_nb_overflow()), format!("{} {}", fhx(cs.0), fhx(cs.1)), s.get_signature().len()) };
+        let r = catch(std::panic::AssertUnwindSafe(|| {
+            let mut d = SetSketcher::<u16, u64, FnvHasher>::default();
+            let mut e = SetSketcher::<u16, u64, FnvHasher>::new(p, BuildHasherDefault::<FnvHasher>::default());
+            let mut f = SetSketcher::<u16, u64, FnvHasher>::new(p2, BuildHasherDefault::<FnvHasher>::default());
+            for x in &items { d.sketch(x).unwrap(); e.sketch(x).unwrap(); f.sketch(x).unwrap(); }
+            (dump(&d), dump(&e), dump(&f))
+        }));
+        ctx.op(&newop("d", (b, m, a, q), u16::MAX as u64));
+        for x in &items { ctx.op(&format!("ssk sk d {}", fnv_tok(x))); }
+        match &r {
+            Ok((d, e, f)) => {
+                ctx.line("ssk dump d", &d.0);
+                ctx.line("ssk card d", &d.1);
+                if d != e || e != f || d.2 as u64 != m {
+                    ctx.oracle_failure(serde_json::json!({"kind":"impl_violates_property","what":"SetSketcher::default() differs from SetSketcher::new(SetSketchParams::default(), ..) (registers, statistics or number of registers vs get_m())",
+                        "n":n,"registers_default":d.2,"registers_new":e.2,"get_m":m,"cardinal_default":d.1,"cardinal_new":e.1}));
+                }
+            }
+            Err(msg) => { ctx.line("ssk dump d", "PANIC"); ctx.oracle_failure(serde_json::json!({"kind":"impl_violates_property","what":"default-constructed SetSketcher aborted","msg":msg})); }
+        }
+    }
+}
+
 pub fn corr_sets(ctx: &mut Ctx) {
+    corr_default(ctx);
     let ncases = ctx.n(60, 800);
     let ns = [1usize, 2, 3, 5, 17, 64, 300, 2000];
     for c in 0..ncases {
